@@ -142,12 +142,19 @@ class Recorder(object):
     def note(self, arg, res):
         self.calls.append((arg, res))
 
-    def as_row_function(self):
-        def f(**d):
+    def as_row_function(self, names=None):
+        """names: None = a **kwargs function; a list = a function with exactly these named parameters"""
+        def call(d):
             r = self.fn(dict(d))
             self.note(dict(d), r)
             return r
-        return f
+        if names is None:
+            def f(**d):
+                return call(d)
+            return f
+        ns = {'call': call}
+        exec('def f(%s):\n    return call(dict(%s))\n' % (', '.join(names), ', '.join('%s=%s' % (n, n) for n in names)), ns)
+        return ns['f']
 
     def as_cell_function(self):
         def g(x):
@@ -363,6 +370,26 @@ class C19:
             tags.append(r)
         if not steps:
             tags.append('fresh')
+        # derivations whose results are thrown away: they must leave the table (and its lookup caches) usable
+        if sub.random() < 0.4 and len(dm):
+            for _ in range(sub.choice([1, 2, 2, 3])):
+                k = sub.choice(['lookup', 'lookup', 'shuffle', 'shuffle', 'shuffle-col', 'sort', 'copy', 'select', 'filter'])
+                if k == 'lookup':
+                    _ = dm.a[dm]
+                elif k == 'shuffle':
+                    _ = ops.shuffle(dm)
+                elif k == 'shuffle-col':
+                    _ = ops.shuffle(dm[sub.choice(['a', 'u', 'i'])])
+                elif k == 'sort':
+                    _ = ops.sort(dm, by=dm.u)
+                elif k == 'copy':
+                    _ = dm[:]
+                elif k == 'select':
+                    _ = dm.i >= 1
+                else:
+                    from datamatrix import functional as _fnc
+                    _ = _fnc.filter_(lambda **d: d['i'] > 0, dm)
+            tags.append('side-derivations')
         if sub.random() < 0.35:
             src, al = sub.choice(self.ALIASES)
             if al not in dm:
@@ -500,7 +527,7 @@ class C19:
         names = [nm for nm, c in dm._cols.items() if not hasattr(c, 'depth')]
         kinds = {nm: KIND[type(dm._cols[nm]).__name__] for nm in names}
         fam = sub.choice(['inc', 'newz', 'touch', 'touch', 'touchall', 'cond_new', 'empty', 'reads_new', 'swap',
-                          'identity', 'coerce'])
+                          'identity', 'coerce', 'new_only', 'rotating', 'rotating', 'late_new', 'new_and_old'])
         salt = sub.randrange(1000)
 
         def h(d, extra=0):
@@ -529,6 +556,16 @@ class C19:
             return fam, lambda d: ({'w': h(d), 'z': 'p'} if h(d) % 3 == 0 else ({'z': None, 'w': 2.5} if h(d) % 3 == 1 else {}))
         if fam == 'empty':
             return fam, lambda d: {}
+        if fam == 'new_only':          # the documented use: map_(lambda a: {'b': a * 2}, dm)
+            return fam, lambda d: {'nb': d['i'] * 2}
+        if fam == 'rotating':          # a different set of new keys per row, in a different order
+            keys = ['n0', 'n1', 'n2', 'N3']
+            return fam, lambda d: dict((keys[(h(d) + q) % 4], [h(d, q) % 7, 'r', None, 1.5][(h(d) + q) % 4])
+                                       for q in range(h(d, 5) % 4))
+        if fam == 'late_new':          # the new column appears for the first time in a later row
+            return fam, lambda d: ({'late': d['i']} if isnum(d['u']) and d['u'] >= 2 else {})
+        if fam == 'new_and_old':
+            return fam, lambda d: {'nz': 'x%s' % d['i'], 'a': d['i'], 'i': 0, 'n2': d['f']}
         if fam == 'reads_new':
             return fam, lambda d: {'z': 1 if 'z' not in d else (2 if d['z'] == '' else 3), 'i': h(d) % 5}
         if fam == 'swap':
@@ -605,11 +642,12 @@ class C19:
             cols[nm] = [type(c), list(self._cells(c)), getattr(c, 'depth', None), c]
             order.append(nm)
         n = len(dm)
+        source = {nm: (list(cols[nm][1]), cols[nm][2]) for nm in cols}
         for j in range(n):
             d = {}
-            for nm in sorted(cols):
-                v = cols[nm][1][j]
-                if cols[nm][2] is not None:
+            for nm in sorted(source):
+                v = source[nm][0][j]
+                if source[nm][1] is not None:
                     import numpy as np
                     v = np.array(v, dtype=float)
                 d[nm] = v
@@ -705,7 +743,11 @@ class C19:
         before = self._snap(dm)
         lits = self._lits(dm) if 'series' not in tags else None
         rec = Recorder(fn, True)
-        outcome = O.outcome(lambda: fnc.map_(rec.as_row_function(), dm))
+        explicit = sub.random() < 0.5
+        if explicit:
+            tags = tags + ['explicit-params']
+        user_f = rec.as_row_function(list(dm._cols) if explicit else None)
+        outcome = O.outcome(lambda: fnc.map_(user_f, dm))
         in_model, obs_o, obs_m = self._observe_tab(outcome)
         problem = None
         try:
@@ -756,7 +798,11 @@ class C19:
         before = self._snap(dm)
         lits = self._lits(dm) if 'series' not in tags else None
         rec = Recorder(fn, True)
-        outcome = O.outcome(lambda: fnc.filter_(rec.as_row_function(), dm))
+        explicit = sub.random() < 0.4
+        if explicit:
+            tags = tags + ['explicit-params']
+        user_f = rec.as_row_function(list(dm._cols) if explicit else None)
+        outcome = O.outcome(lambda: fnc.filter_(user_f, dm))
         in_model, obs_o, obs_m = self._observe_tab(outcome)
         problem = None
         if outcome[0] == 'ok' and isinstance(outcome[1], DataMatrix):
